@@ -89,6 +89,7 @@ pub fn single_file_layout(n: usize) -> Layout {
             symlink: false,
         }],
         xor_key: None,
+        magic_mode: 0,
         extra_files: vec![],
     }
 }
@@ -127,6 +128,7 @@ pub fn random_layout(n: usize, max_files: usize, junk: bool, rng: &mut Rng) -> L
     Layout {
         files,
         xor_key: None,
+        magic_mode: 0,
         extra_files: vec![],
     }
 }
@@ -181,6 +183,8 @@ pub fn index_opts(rng: &mut Rng) -> IndexOpts {
         order_seed: rng.next() | 1,
         undo_pos_base: rng.below(100000),
         active_extra_status: *rng.pick(&[0u64, 0, 128, 128, 256, 384]),
+        active_clear_status: 0,
+        ntx_mode: if rng.chance(1, 4) { rng.range(1, 3) as u8 } else { 0 },
     }
 }
 
